@@ -81,7 +81,7 @@ func oracleC26(v *View, vd *Verdict) {
 				continue
 			}
 			vd.Trigger = true
-			bound := apiBound(v.R.Plan, cp, a)
+			bound := apiBound(v.R.Plan, cp, a) + v.R.StalledNs
 			phase := "first-cycle"
 			if cyclesSlept > 0 {
 				phase = "after-sleep"
